@@ -6,6 +6,8 @@ CONSTANTS
   MaxKe = 2
   MaxCases = 1
   ScDev = 2
+  MaxHist = 3
+  Bursts = {"vn", "vk", "mix"}
   Wide = FALSE
   ExtLenZeroLoops = TRUE
   NonceLenUnchecked = TRUE
